@@ -225,7 +225,7 @@ def explore(ctx):
             sch_cases.append({"op": "f_schema_new", "labels": labels, "blind": blind})
     simpl = C.run_exec_parallel(sch_cases, nproc=8)
     lab_id = {"a": 1, "b": 2, "c": 3, "": 4, "zz": 5}
-    smodel = C.run_model("C15", HEADER + "\nOpen Scope N_scope.", ["([" + ";".join(str(lab_id[x]) for x in s["labels"]) + "], [" + ";".join(str(lab_id[x]) for x in s["blind"]) + "])" for s in sch_cases],
+    smodel = C.run_model("C15", HEADER + "\nOpen Scope N_scope.", ["(([" + ";".join(str(lab_id[x]) for x in s["labels"]) + "] : list N), ([" + ";".join(str(lab_id[x]) for x in s["blind"]) + "] : list N))" for s in sch_cases],
                          runner="run_schemas", shard_size=400, tag="schemas")
     for s, r, m in zip(sch_cases, simpl, smodel):
         if r.get("impl") != m:
